@@ -159,6 +159,14 @@ def perform(ctx, act, frm, to):
     if k in ("copy", "apply", "reshape", "flatten", "index", "slice", "stack", "combine", "astype"):
         # these calls return a new object: the caller still holds the receiver, which must stay what it was
         ctx.prev, ctx.prev_state = ctx.obj, frm
+        # copy.copy is Python's shallow copy: sharing the arrays with the original is its documented meaning, so the
+        # original is only required to stay put until the copy is edited
+        ctx.prev_shallow = (k == "copy" and act.get("kind") == "copy")
+    elif k in ("setitem", "setkey", "settuple", "swap", "putheld") and ctx.prev is not None \
+            and not getattr(ctx, "prev_shallow", False):
+        # the result of the last deriving call is edited in place: the receiver the caller still holds is a different
+        # object and must stay in the state it was in (no array shared between the two may be written)
+        pass
     else:
         ctx.prev = ctx.prev_state = None
     if k == "construct":
